@@ -449,6 +449,7 @@ def gen_case(rng, cfg):
     ncalls = rng.choice([1, 1, 2, 2, 3, 4, 5])
     nsess = min(ncalls, rng.choice([1, 1, 1, 2, 2, 3]))
     calls = []
+    refused = False
     for _ in range(ncalls):
         objs = []
         if rng.random() < 0.25:
@@ -462,8 +463,9 @@ def gen_case(rng, cfg):
                              "props": gen_props(rng, cfg)})
         rng.shuffle(objs)
         objs = objs[:6]
-        if objs and cfg["rejects"] and rng.random() < 0.015:
+        if objs and cfg["rejects"] and rng.random() < 0.03:
             objs.append(dict(rng.choice(objs)))          # the same path twice: ValueError
+            refused = True
         calls.append(objs)
     # split the calls over the sessions (every session gets at least one call)
     cuts = sorted(rng.sample(range(1, ncalls), nsess - 1)) if nsess > 1 else []
@@ -472,8 +474,11 @@ def gen_case(rng, cfg):
         sessions.append(calls[prev:c])
         prev = c
     target = "path" if nsess > 1 or rng.random() < 0.4 else "stream"
-    return {"version": rng.choice([4712, 4713]), "index": rng.choice(["off", "on", "on"]), "target": target,
+    case = {"version": rng.choice([4712, 4713]), "index": rng.choice(["off", "on", "on"]), "target": target,
             "sessions": sessions}
+    if refused and rng.random() < 0.6:
+        case["continue_after_reject"] = True     # the refused call is caught, the writer keeps being used
+    return case
 
 
 # ---------------------------------------------------------------------------
@@ -631,6 +636,7 @@ def run_writer(case, workdir, tag):
     from nptdms import TdmsWriter
     version, want_index = case["version"], case["index"] == "on"
     exps = []
+    skipped = []
     if case["target"] == "stream":
         buf, ibuf = io.BytesIO(), (io.BytesIO() if want_index else False)
         files = None
@@ -654,12 +660,19 @@ def run_writer(case, workdir, tag):
                     try:
                         w.write_segment([cls(*args) for (cls, args) in thunks])
                     except Exception as e:  # the writer (or NumPy underneath it) refuses the call
+                        if case.get("continue_after_reject"):
+                            # the application catches the error and goes on with the same writer: a refused call
+                            # must leave no trace (expectations describe the accepted calls only)
+                            sexp.pop()
+                            skipped.append((si, ci, type(e).__name__))
+                            continue
                         return {"rejected": (si, ci, e), "exps": exps}
         if files is None:
-            return {"data": buf.getvalue(), "index": ibuf.getvalue() if want_index else None, "exps": exps}
+            return {"data": buf.getvalue(), "index": ibuf.getvalue() if want_index else None, "exps": exps,
+                    "skipped": skipped}
         data = open(files, "rb").read()
         index = open(files + "_index", "rb").read() if want_index else None
-        return {"data": data, "index": index, "exps": exps}
+        return {"data": data, "index": index, "exps": exps, "skipped": skipped}
     finally:
         if files is not None:
             for p in (files, files + "_index"):
@@ -1020,12 +1033,23 @@ def process(run, cases, prop):
                 run.count("not_accepted_outside_model")
             continue
         run.count("accepted")
+        if res.get("skipped"):
+            run.count("accepted_after_refused_calls")
         data, index = res["data"], res["index"]
         ncalls = len(flat(res["exps"]))
         nontrivial = ncalls >= 2 or any(o["data"] is not None and o["data"][0] != "void"
                                         for call in flat(res["exps"]) for o in call)
         if nontrivial:
             run.cov["distinct_nontrivial"] += 1
+        if ncalls == 0:
+            # every call was refused and caught: nothing may have been written (an empty stream is not a TDMS file,
+            # so there is nothing to read back)
+            run.count("accepted_nothing_written")
+            if data or index:
+                run.violation("refused-call-wrote-bytes", "every write_segment call was refused, yet %d data / %d index "
+                              "bytes were written [%s]" % (len(data), len(index or b""), describe(case)), case,
+                              expected=0, actual=len(data))
+            continue
         problems = []
         oracle_bad = False
         try:
